@@ -626,6 +626,12 @@ class Unit:
     # ------------------------------------------------------------------------------------------
     def transform_body(self, body, c, key, meta, f):
         t = body
+        # --- statement anchors are located on the pristine text and marked; the ghost text is spliced in at the very end
+        anchors = []
+        if c:
+            for ai, (line_text, nth, stmts, where) in enumerate(c.at):
+                t = self.mark_anchor(t, line_text, nth, where, key, ai)
+                anchors.append(stmts)
         # --- hook calls with call-site contracts (see process_traits)
         for hn in getattr(self, 'hookcall_names', []):
             t2 = re.sub(r'(?:<\s*C\s*>|\bC)\s*::\s*%s\s*\(' % hn, 'crate::traits_hookcalls::call_%s::<C>(' % hn, t)
@@ -633,12 +639,6 @@ class Unit:
                 self.rule('E7.hook_call_routed')
                 meta['rules'].append('E7:call_' + hn)
                 t = t2
-        # --- statement anchors are located on the pristine text and marked; the ghost text is spliced in at the very end
-        anchors = []
-        if c:
-            for ai, (line_text, nth, stmts, where) in enumerate(c.at):
-                t = self.mark_anchor(t, line_text, nth, where, key, ai)
-                anchors.append(stmts)
         # --- E13: bind the tail expression (`EXPR` -> `let __res = EXPR; <ghost> __res`) so that exit hints can name the result
         if c and c.tail:
             t = self.bind_tail(t, c.tail[0], c.tail[1], key, meta)
